@@ -164,7 +164,7 @@ type (
 		op   string
 		l, r sqlExpr
 	}
-	sqlNot  struct{ e sqlExpr }
+	sqlNot    struct{ e sqlExpr }
 	sqlIsNull struct {
 		e   sqlExpr
 		not bool
